@@ -128,14 +128,15 @@ def call_shapes(fname):
 #   T    logging call                                  not simple
 #   sub  T(i)[T(j)]                                    not simple
 #   neg  -x   (an operation on a name, no leaf)        not simple
-#   fst2 f"{T(i)}{T(j)}" (AddNode chain at that stage)  not simple
+#   fst2 f"{T(i)}{T(j)}" (an AddNode after ConstantFolding)  not simple; fst3 (three parts): a JoinedStrNode,
+#        taken for simple like fst (one part: the FormattedValueNode itself)
 #   x    a name                                        simple
 #   none None                                          simple
 #   xa   x.a  attribute of a name                      taken for simple, has a side effect
 #   or / and / cond / tup / lst / dct / fst            taken for simple (class-level is_temp), evaluate leaves
 NONSIMPLE = ["T", "sub", "neg", "fst2"]
 SIMPLE = ["x", "none"]
-FALSE_SIMPLE = ["xa", "or", "and", "cond", "tup", "lst", "dct", "fst", "xab"]
+FALSE_SIMPLE = ["xa", "or", "and", "cond", "tup", "lst", "dct", "fst", "xab", "fst3"]
 
 
 def mk_arg(g, kind, ctyped=False):
@@ -173,6 +174,8 @@ def mk_arg(g, kind, ctyped=False):
         return ("fstr", [L()])
     if kind == "fst2":
         return ("fstr", [L(), L()])
+    if kind == "fst3":
+        return ("fstr", [L(), L(), L()])
     raise ValueError(kind)
 
 
